@@ -19,6 +19,7 @@ mod profiles;
 mod rng;
 mod runner;
 mod scenario;
+mod setw;
 mod state;
 mod tablew;
 mod world;
